@@ -446,7 +446,7 @@ fn nap_fileop(op: u8, offset: u64, size: u64, expansion: u16, path: &str, payloa
 fn nap_file_block(data: &[u8]) -> Vec<u8> { let mut b = vec![]; b.extend_from_slice(&16u32.to_le_bytes()); b.extend_from_slice(&0u32.to_le_bytes()); b.extend_from_slice(&32000i32.to_le_bytes()); b.extend_from_slice(&(data.len() as i32).to_le_bytes()); b.extend_from_slice(data); while b.len() % 128 != 0 { b.push(0); } b }
 fn nap_empty_block(blocks: u32) -> Vec<u8> { let mut v = vec![0u8; (blocks as usize) << 7]; v[0..4].copy_from_slice(&128i32.to_le_bytes()); v[12..16].copy_from_slice(&((blocks - 1) as i32).to_le_bytes()); v }
 
-//@unit props=C03 label=B tier=quick native=1 fn=patch::ZiPatch::apply bound="by execution on temporary directories: 3 hand-built patches (15, 6 and 9 chunks, the last one switching the target platform twice: FHDR-less header, T, X, I, A, D, E, H(dat version / dat data / index), F(A at offset 0 and at an offset, multi-block, D, M, R), APLY, ADIR, DELD, EOF) applied one after another to a tree with 4 pre-existing files, for the win32 and ps4 target platforms"
+//@unit props=C03 label=B tier=quick native=1 fn=patch::ZiPatch::apply bound="by execution on temporary directories: 3 hand-built patches (15, 6 and 9 chunks, the last one switching the target platform twice: FHDR-less header, T, X, I, A, D, E, H(dat version / dat data / index), F(A at offset 0, at an offset past the end and at an offset inside a longer file, multi-block, D, M, R), APLY, ADIR, DELD, EOF) applied one after another to a tree with 4 pre-existing files, for the win32 and ps4 target platforms"
 //@desc after applying, the tree is what the reference semantics give: block writes at 128 x the block offset of the dat file named by category, expansion, chunk, file number and target platform, followed by the wipe; delete/expand write an empty-block header of the given block count over zeroed blocks; header updates overwrite the first (version) or second (index/data) KiB; file operations create, overwrite at an offset, truncate, delete and make directories; untouched files keep their bytes; every apply reports success; applying the patches in sequence accumulates their effects
 #[test]
 fn native_zipatch_apply_semantics() {
@@ -457,7 +457,7 @@ fn native_zipatch_apply_semantics() {
         let root = base.join("game");
         let keep = nzp_content(9, 700);
         let pre: Vec<(String, Vec<u8>)> = vec![("ffxivgame.ver".to_string(), b"2023.01.01.0000.0000".to_vec()), (format!("sqpack/ffxiv/0a0000.{pname}.dat0"), nzp_content(3, 4096)),
-            ("sqpack/ex1/old.bin".to_string(), nzp_content(4, 300)), ("movie/ffxiv/keep.bk2".to_string(), keep.clone()), ("sqpack/ex2/020201.win32.index".to_string(), nzp_content(5, 64))];
+            ("sqpack/ex1/old.bin".to_string(), nzp_content(4, 300)), ("movie/ffxiv/keep.bk2".to_string(), keep.clone()), ("movie/ffxiv/long.bk2".to_string(), nzp_content(6, 600)), ("sqpack/ex2/020201.win32.index".to_string(), nzp_content(5, 64))];
         nzp_write_tree(&root, &pre);
         std::fs::create_dir_all(root.join("olddir")).unwrap();
         let mut model: std::collections::BTreeMap<String, Vec<u8>> = pre.iter().cloned().collect();
@@ -488,6 +488,8 @@ fn native_zipatch_apply_semantics() {
         let mut p2: Vec<Vec<u8>> = vec![];
         p2.push(nap_target(platform));
         p2.push(nap_fileop(b'A', 3, f3.len() as u64, 0, "ffxivboot.exe", &nap_file_block(&f3))); { let f = model.get_mut("ffxivboot.exe").unwrap(); write_at(f, 3, &f3); }
+        // overwrite in the middle of a longer existing file: the bytes before and after the written range stay
+        p2.push(nap_fileop(b'A', 200, 28, 0, "movie/ffxiv/long.bk2", &nap_file_block(&f3[..28]))); { let f = model.get_mut("movie/ffxiv/long.bk2").unwrap(); write_at(f, 200, &f3[..28]); }
         p2.push(nap_fileop(b'A', 0, 5, 0, "movie/ffxiv/00000.bk2", &nap_file_block(&f1))); model.insert("movie/ffxiv/00000.bk2".to_string(), f1.clone());
         p2.push(nap_fileop(b'D', 0, 0, 0, "sqpack/ex1/old.bin", &[])); model.remove("sqpack/ex1/old.bin");
         p2.push(nap_sqpk(b'I', &{ let mut c = vec![b'A', 0, 0]; c.extend_from_slice(&0u64.to_be_bytes()); c.extend_from_slice(&0u32.to_be_bytes()); c.extend_from_slice(&0u32.to_be_bytes()); c.extend_from_slice(&[0u8; 8]); c }));
